@@ -693,7 +693,7 @@ package vnet
 //@            (handedN == old(handedN) || (handedN == old(handedN) + 1 && handedSock[old(handedN)] == lastFind && lastFind != 0))
 //@   ensures [fail] err != nil ==> upN == old(upN) && handedN == old(handedN)
 
-//@ trusted func newChunkUDP(srcAddr *net.UDPAddr, dstAddr *net.UDPAddr) (c *chunkUDP)
+//@ func newChunkUDP(srcAddr *net.UDPAddr, dstAddr *net.UDPAddr) (c *chunkUDP)
 //@   requires srcAddr != nil && dstAddr != nil
 //@   ensures c != nil && fresh(c) && c.sourcePort == srcAddr.Port && c.destinationPort == dstAddr.Port && c.chunkIP.sourceIP == srcAddr.IP && c.chunkIP.destinationIP == dstAddr.IP
 
@@ -820,7 +820,7 @@ package vnet
 //@ property C15: TokenBucketFilter.refillTokens, TokenBucketFilter.drainQueue, TokenBucketFilter.run, TokenBucketFilter.onInboundChunk, chunkQueue.push, chunkQueue.pop, chunkQueue.peek
 // (UDPConn.Close belongs to C01 as well: a refused second Close must not unbind the address a successor socket holds)
 // every function under contract in the files C01 is anchored in that can lose, duplicate or misdeliver a datagram: socket registration, routing table, NAT
-//@ property C01: chunkUDP.SourceAddr, chunkUDP.DestinationAddr, chunkUDP.UserData, chunkUDP.Network, chunkUDP.Clone, chunkUDP.setSourceAddr, chunkUDP.setDestinationAddr, Router.processChunks, Router.push, Router.onInboundChunk, Net.write, Net.onInboundChunk, UDPConn.WriteTo, UDPConn.ReadFrom, UDPConn.onInboundChunk, chunkQueue.push, chunkQueue.pop, chunkQueue.peek, udpConnMap.find, UDPConn.Close, udpConnMap.insert, udpConnMap.delete, Net.onClosed, Net._dialUDP, newUDPConn, Router.addNIC, networkAddressTranslator.translateOutbound, networkAddressTranslator.findOutboundMapping, networkAddressTranslator.allocUDPPort, networkAddressTranslator.removeMapping, networkAddressTranslator.translateInbound
+//@ property C01: chunkUDP.SourceAddr, chunkUDP.DestinationAddr, chunkUDP.UserData, chunkUDP.Network, chunkUDP.Clone, chunkUDP.setSourceAddr, chunkUDP.setDestinationAddr, Router.processChunks, Router.push, Router.onInboundChunk, Net.write, Net.onInboundChunk, UDPConn.WriteTo, UDPConn.ReadFrom, UDPConn.onInboundChunk, chunkQueue.push, chunkQueue.pop, chunkQueue.peek, udpConnMap.find, UDPConn.Close, udpConnMap.insert, udpConnMap.delete, Net.onClosed, Net._dialUDP, newUDPConn, Router.addNIC, networkAddressTranslator.translateOutbound, networkAddressTranslator.findOutboundMapping, networkAddressTranslator.allocUDPPort, networkAddressTranslator.removeMapping, networkAddressTranslator.translateInbound, newChunkUDP
 //@ property C13: Router.assignIPAddress, Router.addNIC, udpConnMap.insert, udpConnMap.find, udpConnMap.delete, newUDPConn, UDPConn.onInboundChunk, UDPConn.Close, Net.onInboundChunk, Net.onClosed, Net.allocateLocalAddr, Net.assignPort, Net._dialUDP
 //@ property C10: newUDPConn, UDPConn.ReadFrom, UDPConn.Read, UDPConn.SetReadDeadline, UDPConn.SetDeadline
 //@ property C16: NewLossFilter, LossFilter.onInboundChunk
